@@ -220,3 +220,21 @@ def compile_witness(w, build, compiler, outdir, extra=(), tag=""):
         member = w.where.get(e["wline"]) if e["wline"] else None
         res.append((e["file"], e["line"], e["msg"], member or e["inst"] or "?"))
     return res, p.returncode, src
+
+
+def lower_witness(src, build, outdir, extra=(), tag=""):
+    """lower a generated witness unit to the JSON IR (clang++ -O0 + sroa): the
+    header-inline members and template instantiations it odr-uses get bodies"""
+    from . import repo as _r
+    us = build.group("lib", ("c++",))
+    ll = os.path.join(outdir, "witness%s.ll" % tag)
+    cmd = ["clang++", "-O0", "-Xclang", "-disable-O0-optnone", "-g", "-S", "-emit-llvm", "-Wno-everything"] + \
+        [x for x in us[0].flags() if not x.startswith("-O")] + list(extra) + [src, "-o", ll]
+    p = subprocess.run(cmd, cwd=us[0].directory, stdout=subprocess.PIPE, stderr=subprocess.PIPE)
+    if p.returncode != 0:
+        return None, p.stderr.decode(errors="replace")[-800:]
+    opt = os.path.join(outdir, "witness%s.opt.ll" % tag)
+    _r.run(["opt-14", "-S", "-passes=function(sroa,early-cse)", ll, "-o", opt])
+    js = os.path.join(outdir, "witness%s.json" % tag)
+    _r.run([_r.IRDUMP, opt, js])
+    return js, ""
